@@ -29,7 +29,7 @@ def run(seed_dir):
         if os.path.exists("/verif/known-findings.jsonl"):
             shutil.copy("/verif/known-findings.jsonl", os.path.join(td, "verif"))
         props = prop.split(",") if len(sys.argv) < 3 or not sys.argv[1].startswith("--props=") else sys.argv[1][8:].split(",")
-        r = subprocess.run(["/verif/bin/stargzlint", "-prop", ",".join(props), "-verif", os.path.join(td, "verif"), "-overlay", ",".join(ov)], capture_output=True, text=True)
+        r = subprocess.run([os.environ.get("STARGZLINT", "/verif/bin/stargzlint"), "-prop", ",".join(props), "-verif", os.path.join(td, "verif"), "-overlay", ",".join(ov)], capture_output=True, text=True)
         viol = [l.strip() for l in r.stdout.splitlines() if l.startswith("  ")]
         st = {0: "MISSED", 1: "CAUGHT", 2: "INVALID"}.get(r.returncode, "?")
         return prop, st, "\n".join(viol[:4]) if st != "INVALID" else (r.stdout + r.stderr)[-500:]
